@@ -1129,3 +1129,59 @@ pub fn model_key_warnings(p: &Project, suppress: bool) -> Result<Vec<ModelWarnin
     out.sort();
     Ok(out)
 }
+
+// ------------------------------------------------------------------------------------------
+// ICU data needs (C20)
+
+/// option families ("plurals", "number", "datetime", "list", "currency") the accessible keys need
+pub fn needed_icu_options(p: &Project, sem: &Sem) -> BTreeSet<String> {
+    fn walk(pieces: &[RPiece], out: &mut BTreeSet<String>) {
+        for x in pieces {
+            match x {
+                RPiece::Var { fmt: Some(f), .. } => {
+                    out.insert(
+                        match f.name.as_str() {
+                            "date" | "time" | "datetime" => "datetime",
+                            "number" => "number",
+                            "list" => "list",
+                            "currency" => "currency",
+                            other => other,
+                        }
+                        .to_string(),
+                    );
+                }
+                RPiece::Comp { children, .. } => walk(children, out),
+                RPiece::Range(r) => {
+                    for (_, b) in &r.branches {
+                        walk(b, out);
+                    }
+                }
+                RPiece::Plural(pl) => {
+                    out.insert("plurals".into());
+                    for b in pl.forms.values() {
+                        walk(b, out);
+                    }
+                }
+                _ => {}
+            }
+        }
+    }
+    let mut out = BTreeSet::new();
+    for ns in p.ns_list() {
+        let nsr = ns.as_deref();
+        let Some(def) = p.file(nsr, p.default_locale()) else { continue };
+        let mut paths = vec![];
+        crate::gen::leaf_paths(def, &mut vec![], &mut paths);
+        for path in paths {
+            for loc in &p.locales {
+                if sem.is_defaulted(nsr, loc, &path) {
+                    continue;
+                }
+                if let Ok(r) = sem.resolve_at(nsr, loc, &path) {
+                    walk(&r, &mut out);
+                }
+            }
+        }
+    }
+    out
+}
